@@ -654,6 +654,11 @@ pub(crate) async fn fashare(
     // 3 b) Pi broadcasts decommitment for macs.
     let mut dm_k = broadcast(channel, i, n, "fashare ver", &dmvec).await?;
     dm_k[i] = dmvec;
+    // Each decommitment consists of the bit and one MAC for every other party. Only the outer
+    // length has been checked so far.
+    if dm_k.iter().flatten().any(|dm| dm.len() != 1 + (n - 1) * 16) {
+        return Err(Error::InvalidLength);
+    }
 
     // 3 c) Compute bi to determine di_bi and send to all parties.
     let mut bi = [false; RHO];
